@@ -236,6 +236,13 @@ func (t *FSTree) readHeader(id oid.ID, f *os.File, buf []byte) ([]byte, io.ReadS
 				return nil, nil, io.ErrUnexpectedEOF
 			}
 			size := min(offset+int(l), offset+objectwire.NonPayloadFieldsBufferLength)
+			if size > len(buf) {
+				// after a refill that kept a part of a straddling prefix the member can start
+				// beyond the first half of the buffer: move it to the buffer start
+				n = copy(buf, buf[offset:n])
+				size -= offset
+				offset = 0
+			}
 			if n < size {
 				_, err = io.ReadFull(f, buf[n:size])
 				if err != nil {
